@@ -1101,3 +1101,40 @@ mod tests {
 		assert!(inbound_peer.decrypt_message(&mut msg).is_err());
 	}
 }
+
+#[cfg(feature = "_verif_hooks")]
+pub mod verif_hooks_c15 {
+	//! Read/construct access to the encryptor's internal Noise state for external checkers.
+	use super::*;
+
+	/// `(sk, sn, sck, rk, rn, rck)` once the handshake has finished.
+	pub fn transport_state(
+		e: &PeerChannelEncryptor,
+	) -> Option<([u8; 32], u64, [u8; 32], [u8; 32], u64, [u8; 32])> {
+		match e.noise_state {
+			NoiseState::Finished { sk, sn, sck, rk, rn, rck } => Some((sk, sn, sck, rk, rn, rck)),
+			NoiseState::InProgress { .. } => None,
+		}
+	}
+
+	/// `(h, ck)` while the handshake is in progress.
+	pub fn handshake_state(e: &PeerChannelEncryptor) -> Option<([u8; 32], [u8; 32])> {
+		match e.noise_state {
+			NoiseState::InProgress { ref bidirectional_state, .. } => {
+				Some((bidirectional_state.h, bidirectional_state.ck))
+			},
+			NoiseState::Finished { .. } => None,
+		}
+	}
+
+	/// An encryptor whose handshake is finished, in the given transport state.
+	pub fn from_transport_state(
+		their_node_id: PublicKey, sk: [u8; 32], sn: u64, sck: [u8; 32], rk: [u8; 32], rn: u64,
+		rck: [u8; 32],
+	) -> PeerChannelEncryptor {
+		PeerChannelEncryptor {
+			their_node_id: Some(their_node_id),
+			noise_state: NoiseState::Finished { sk, sn, sck, rk, rn, rck },
+		}
+	}
+}
